@@ -11,16 +11,48 @@ import (
 func unify(x, y any, s *State) *State {
 	x = walk(x, s)
 	y = walk(y, s)
-	if reflect.DeepEqual(x, y) {
+	// Variables are compared by identity, never by the contents of their placeholders.
+	xvar, xok := s.CastVar(x)
+	yvar, yok := s.CastVar(y)
+	if xok && yok && xvar == yvar {
 		return s
-	} else if haveCycle(x, y, s) {
-		return nil
-	} else if xvar, ok := s.CastVar(x); ok {
+	}
+	if xok {
+		if hasCycle(xvar, y, s) {
+			return nil
+		}
 		return s.Set(xvar, y)
-	} else if yvar, ok := s.CastVar(y); ok {
+	}
+	if yok {
+		if hasCycle(yvar, x, s) {
+			return nil
+		}
 		return s.Set(yvar, x)
 	}
+	if isLeaf(x) || isLeaf(y) {
+		// Neither side is a variable and at least one side has no elements that could contain one.
+		if reflect.DeepEqual(x, y) {
+			return s
+		}
+		return nil
+	}
 	return reflecttools.ZipReduce(x, y, s, unify)
+}
+
+// isLeaf returns true if the value has no fields or elements that unify can descend into,
+// which means it is not a non-nil pointer to a struct or a slice.
+func isLeaf(x any) bool {
+	if reflecttools.IsNil(x) {
+		return true
+	}
+	v := reflect.ValueOf(x)
+	switch v.Kind() {
+	case reflect.Ptr:
+		return v.Elem().Kind() != reflect.Struct
+	case reflect.Slice:
+		return false
+	}
+	return true
 }
 
 // walk returns the value of the variable in the substitutions map.
